@@ -1,9 +1,11 @@
 ----------------------------- MODULE MC_Merger -----------------------------
 (* files of N <= MaxN lines of 4 bytes each; up to 3 matches (spans of 1-2 lines or parts of a line, nested or apart,
    in document order); context b, a <= 2: the machine prints exactly the union of the windows, each line once, in
-   increasing order, in as many groups as the union has runs (no two groups touch). *)
+   increasing order, in as many groups as the union has runs (no two groups touch) - for the machine whose end line
+   moves along on a merge (AsCode = FALSE).  The machine as the code has it (AsCode = TRUE) violates this
+   (MC_Merger_witness.cfg): a finding outside the listed properties. *)
 EXTENDS Merger, TLC
-CONSTANTS MaxN
+CONSTANTS MaxN, AsCode
 VARIABLES n, ms, b, a
 vars == <<n, ms, b, a>>
 
@@ -18,7 +20,7 @@ Init == /\ n \in 1..MaxN /\ b \in 0..2 /\ a \in 0..2
 Next == UNCHANGED vars
 Spec == Init /\ [][Next]_vars
 
-Same == LET gs == GroupsI(n, ms, b, a)  ls == LinesOf(gs) IN
+Same == LET gs == GroupsV(AsCode, n, ms, b, a)  ls == LinesOf(gs) IN
         /\ { ls[i] : i \in 1..Len(ls) } = PrintedP(n, ms, b, a)
         /\ \A i \in 1..(Len(ls) - 1) : ls[i] < ls[i + 1]                    \* each line once, increasing
         /\ Len(gs) = GroupsP(n, ms, b, a)                                    \* groups are the maximal runs
